@@ -26,7 +26,10 @@ import c14_decks as D
 from common import cn, cpair, clist
 
 THEOREMS = ['C14_squeeze_closed_form', 'C14_content_layout',
-            'C14_cards_grouping', 'C14_cards_layout']
+            'C14_cards_grouping', 'C14_cards_layout',
+            'C14_case_invariant_options', 'C14_case_invariant_splits',
+            'C14_split_surface', 'C14_split_surface_tr',
+            'C14_split_surface_rendered', 'C14_split_data_rendered']
 TRUSTED = [
     'hand-written model coq/C14/Model.v (modelled, tied by execution only); '
     'regexes re-implemented as scanners: tied exhaustively on short strings '
